@@ -229,8 +229,24 @@ class _RandomState:
     return t
 
 
+def _finfo(dt):
+  """jnp.finfo / np.finfo: machine parameters of the float dtypes (IEEE constants)."""
+  if isinstance(dt, Tensor):
+    dt = dt.dtype
+  d = T.as_dtype(dt)
+  table = {"float32": (2.0 ** -23, 3.4028234663852886e38, 1.1754943508222875e-38, 32),
+           "float64": (2.0 ** -52, 1.7976931348623157e308, 2.2250738585072014e-308, 64),
+           "float16": (2.0 ** -10, 65504.0, 6.103515625e-05, 16),
+           "bfloat16": (2.0 ** -7, 3.3895313892515355e38, 1.1754943508222875e-38, 16)}
+  if d is None or d.name not in table:
+    raise Unsupported(f"finfo of {dt}")
+  eps, mx, tiny, bits = table[d.name]
+  return NS(eps=eps, max=mx, min=-mx, tiny=tiny, smallest_normal=tiny, bits=bits, dtype=d, resolution=10.0 ** -int(-__import__("math").log10(eps)))
+
+
 def make_jnp():
   j = NS()
+  j.finfo = _finfo
   for d in T.DTYPES.values():
     setattr(j, d.name, d)
   j.bool_ = T.bool_
